@@ -1348,9 +1348,19 @@ impl Compiler {
         let class_reg = self.builder.alloc_register()?;
 
         // Compile class body to register
-        // Note: compile_class_body now also declares the class variable (if named)
-        // so that static blocks can reference the class by name
+        // Note: compile_class_body also declares the inner (immutable) class name binding
+        // so that static blocks and methods can reference the class by name
         self.compile_class_body(class, class_reg)?;
+
+        // A class declaration binds its name in the enclosing scope like `let`
+        if let Some(id) = &class.id {
+            let name_idx = self.builder.add_string(id.name.cheap_clone())?;
+            self.builder.emit(Op::DeclareVar {
+                name: name_idx,
+                init: class_reg,
+                mutable: true,
+            });
+        }
 
         self.builder.free_register(class_reg);
         Ok(())
@@ -1383,6 +1393,12 @@ impl Compiler {
             .or(inferred_name);
         // Only create inner binding if class has explicit id (not inferred name)
         let has_explicit_name = class.id.is_some();
+
+        // The inner name binding lives in a scope of its own: it is what the class body sees,
+        // and (for class expressions) it is not visible outside the class
+        if has_explicit_name {
+            self.builder.emit(Op::PushScope);
+        }
 
         // Compile class decorators first - they are evaluated before the class is created
         // Evaluation order: top-to-bottom (forward iteration)
@@ -1702,6 +1718,10 @@ impl Compiler {
                     src: dst,
                 });
             }
+        }
+
+        if has_explicit_name {
+            self.builder.emit(Op::PopScope);
         }
 
         Ok(())
